@@ -14,7 +14,7 @@ alternative are parameters, free variables / globals, attribute chains, calls an
 
 `for a, b in zip(X, Y)`, `enumerate(X)`, `X.items()` and `a, b = (p, q)` are resolved positionally.  Rules then
 match *structure* of the alternatives (which attribute of which parameter, which call), never a local's name.
-Rebuilt nodes carry `_orig` (the node of the function's own AST they were copied from), so a rule can ask whether a
+Rebuilt nodes carry `_nd_orig` (the node of the function's own AST they were copied from), so a rule can ask whether a
 particular construct (a comprehension, a call) is part of a value.
 
 Dominating branch outcomes that compare a local with a sentinel (`x is not NO_CACHE`, `x is None`) prune the
@@ -54,7 +54,7 @@ def is_pseudo(e, name: Optional[str] = None) -> bool:
 
 def orig(n):
     """the node of the analysed function's own AST that `n` was copied from (n itself when it was not rebuilt)"""
-    return getattr(n, "_orig", n)
+    return getattr(n, "_nd_orig", n)
 
 
 def _callee_last(c: ast.Call) -> str:
@@ -120,7 +120,7 @@ class _Rebuild(ast.NodeTransformer):
     def generic_visit(self, node):
         new = type(node).__new__(type(node))
         new.__dict__.update(node.__dict__)
-        new._orig = orig(node)
+        new._nd_orig = orig(node)
         for fld, old in ast.iter_fields(node):
             if isinstance(old, list):
                 vals = []
@@ -137,8 +137,8 @@ class _Rebuild(ast.NodeTransformer):
         if isinstance(node.ctx, ast.Load) and node.id in self.env:
             val = self.env[node.id]
             v = copy.copy(val)          # shallow: children stay shared, identity of what it was copied from is kept
-            v._orig = orig(val)
-            v._from = node
+            v._nd_orig = orig(val)
+            v._nd_from = node
             return v
         return node
 
@@ -156,12 +156,12 @@ class _Rebuild(ast.NodeTransformer):
         try:
             new = type(node).__new__(type(node))
             new.__dict__.update(node.__dict__)
-            new._orig = orig(node)
+            new._nd_orig = orig(node)
             gens = []
             for g in node.generators:
                 g2 = ast.comprehension.__new__(ast.comprehension)
                 g2.__dict__.update(g.__dict__)
-                g2._orig = orig(g)
+                g2._nd_orig = orig(g)
                 g2.iter = self.visit(g.iter)
                 for leaf, path in _flatten(g.target):
                     if isinstance(leaf, ast.Name):
@@ -334,7 +334,7 @@ class Sub:
                 for p in prev:
                     for v in self.alts(d.value, d.node, ch):
                         b = ast.BinOp(left=p, op=st.op, right=v)
-                        b._orig = st
+                        b._nd_orig = st
                         out.append(b)
             elif d.kind == "for":
                 for v in self.alts(d.value, d.node, ch):
@@ -364,7 +364,7 @@ class Sub:
         seen: Set[str] = set()
         for alt in self.alts(root, at):
             for n in ast.walk(alt):
-                if n is node or getattr(n, "_from", None) is node or (getattr(n, "_orig", None) is node and not hasattr(n, "_from")):
+                if n is node or getattr(n, "_nd_from", None) is node or (getattr(n, "_nd_orig", None) is node and not hasattr(n, "_nd_from")):
                     k = ast.dump(n) if isinstance(n, ast.expr) else str(id(n))
                     if k not in seen:
                         seen.add(k)
@@ -403,8 +403,8 @@ def split_ifexp(e: ast.expr, cap: int = 16) -> List[ast.expr]:
             continue
         for arm in (hit.body, hit.orelse):
             a2 = copy.copy(arm)
-            a2._orig = orig(arm)
-            a2._from = orig(hit)
+            a2._nd_orig = orig(arm)
+            a2._nd_from = orig(hit)
             todo.append(_Replace(hit, a2).visit(cur))
     done.reverse()
     return done
@@ -421,7 +421,7 @@ class _Replace(ast.NodeTransformer):
             return node
         new = type(node).__new__(type(node))
         new.__dict__.update(node.__dict__)
-        new._orig = orig(node)
+        new._nd_orig = orig(node)
         for fld, old in ast.iter_fields(node):
             if isinstance(old, list):
                 setattr(new, fld, [self.visit(x) if isinstance(x, ast.AST) else x for x in old])
@@ -444,7 +444,7 @@ def _conj(t: ast.expr, pol: bool) -> List[Tuple[ast.expr, bool]]:
         for neg, pos in flip.items():
             if isinstance(t.ops[0], neg):
                 t2 = ast.Compare(left=t.left, ops=[pos()], comparators=t.comparators)
-                t2._orig = orig(t)
+                t2._nd_orig = orig(t)
                 return [(t2, not pol)]
     return [(t, pol)]
 
